@@ -424,6 +424,16 @@ def forward_single_defs(body, enums):
                         # (the operand of sizeof is not evaluated: what it names may be written freely)
                         unevaluated = {id(y) for x in walk(init[0]) if x.get("kind") == "UnaryExprOrTypeTraitExpr" for y in walk(x)}
                         dep = {x["referencedDecl"].get("id") for x in walk(init[0]) if x.get("kind") == "DeclRefExpr" and id(x) not in unevaluated and x["referencedDecl"].get("kind") in ("VarDecl", "ParmVarDecl")}
+                        if addr:
+                            # an address mentions objects only for where they live: `&tmp.x` does not change when tmp's
+                            # content does, nor when `&tmp` is handed to someone; only pointer / integer names it reads count
+                            keep = set()
+                            for x in walk(init[0]):
+                                if x.get("kind") == "DeclRefExpr" and x["referencedDecl"].get("id") in dep:
+                                    qt = (x["referencedDecl"].get("type") or {}).get("qualType", "")
+                                    if "*" in qt or qt.replace("const ", "").strip() in ("int", "unsigned int", "size_t", "long", "unsigned long", "byte", "unsigned char", "uint32_t", "uint64_t", "uint8_t", "limb_t"):
+                                        keep.add(x["referencedDecl"].get("id"))
+                            dep = keep
                         if dep & written:
                             continue
                         items[i + 1:] = subst_refs(items[i + 1:], {d.get("id"): init[0]})
@@ -524,6 +534,27 @@ def subst_refs(node, m):
     if node.get("kind") == "DeclRefExpr" and node.get("referencedDecl", {}).get("id") in m:
         return {"kind": "ParenExpr", "type": node.get("type"), "_line": node.get("_line"), "_file": node.get("_file"), "inner": [m[node["referencedDecl"]["id"]]]}
     return {k: (subst_refs(v, m) if k == "inner" else v) for k, v in node.items()}
+
+
+def rename_locals(node, suffix):
+    """copy of a helper body in which every local variable it declares carries a suffix: a helper analysed in place must
+    not capture the caller's names (facts and reaching definitions are keyed by name)"""
+    ids = {x.get("id") for x in walk(node) if x.get("kind") == "VarDecl"}
+
+    def go(n):
+        if isinstance(n, list):
+            return [go(c) for c in n]
+        if not isinstance(n, dict):
+            return n
+        out = {k: (go(v) if k == "inner" else v) for k, v in n.items()}
+        if n.get("kind") == "VarDecl" and n.get("id") in ids:
+            out["name"] = n["name"] + suffix
+        if n.get("kind") == "DeclRefExpr" and n.get("referencedDecl", {}).get("id") in ids:
+            rd = dict(n["referencedDecl"])
+            rd["name"] = rd.get("name", "") + suffix
+            out["referencedDecl"] = rd
+        return out
+    return go(node)
 
 
 def split_args(s):
@@ -907,7 +938,7 @@ class CFG:
         args = e["inner"][1:]
         if len(params) != len(args):
             return None
-        return subst_refs(body[0], {p_.get("id"): a_ for p_, a_ in zip(params, args)})
+        return forward_single_defs(rename_locals(subst_refs(body[0], {p_.get("id"): a_ for p_, a_ in zip(params, args)}), "__" + cn), self.prog.enums)
 
     def run_inlined(self, body, target, preds, brk, cont):
         if not hasattr(self, "_inl_stack"):
@@ -948,7 +979,7 @@ class CFG:
         if len(params) != len(args):
             return None
         m = {p_.get("id"): a_ for p_, a_ in zip(params, args)}
-        return subst_refs(body[0], m)
+        return forward_single_defs(rename_locals(subst_refs(body[0], m), "__" + cn), self.prog.enums)
 
     # ---- dominators (iterative, sets; graphs are tiny)
     def dom(self):
